@@ -110,6 +110,11 @@ class PriceLimitPlugin(SlotPlugin):
                 mon.viol("C15", "market_order_priced", {"rule": sl["name"], "after": q})
             return
         p0 = market.get_market_price(0)
+        if not (p0 > 0) or r < 0:
+            # a zero or negative time-0 price (a trade at a non-positive price during step 0) turns the band
+            # inside out; the statement has nothing to say about that
+            mon.probe("c15_nonpositive_reference_price_skipped")
+            return
         lo, hi = p0 * (1 - r), p0 * (1 + r)
         eps = REL * max(abs(p0), abs(p))
         if p > hi + eps:
